@@ -377,9 +377,11 @@ func runFaults(sc *fScenario) (d string, tag string) {
 	if _, e := fr.connect("W2", "fw2", "w/#"); e != "" {
 		return e, "INFRA"
 	}
-	psubs := []string{}
+	// P and S also hold subscriptions below the level the witness subscriber's filter "w/#" starts with: when their
+	// connections go, the witness's subscription must stay (nodes shared by several clients' filters)
+	psubs := []string{"w/p/x"}
 	if cross {
-		psubs = []string{"u"}
+		psubs = append(psubs, "u")
 	}
 	if len(sc.H) > 0 && sc.H[0].SelfSub {
 		psubs = append(psubs, "t")
@@ -387,7 +389,7 @@ func runFaults(sc *fScenario) (d string, tag string) {
 	if _, e := fr.connect("P", "fp", psubs...); e != "" {
 		return e, "INFRA"
 	}
-	if _, e := fr.connect("S", "fs", "t"); e != "" {
+	if _, e := fr.connect("S", "fs", "t", "w/s"); e != "" {
 		return e, "INFRA"
 	}
 	closeDone := make(chan struct{})
@@ -607,7 +609,7 @@ func runFaults(sc *fScenario) (d string, tag string) {
 	}
 	// every connection is gone and torn down: nothing of them is left in the subscription tree or the session store
 	if !fr.closedS {
-		for _, t := range []string{"t", "u", "w/1", "w/will/P", "w/will/S", "extra/1"} {
+		for _, t := range []string{"t", "u", "w/1", "w/will/P", "w/will/S", "extra/1", "w/s", "w/p/x"} {
 			var subs []interface{}
 			var qoss []byte
 			if err := r.tp.Subscribers([]byte(t), 2, &subs, &qoss); err == nil && len(subs) > 0 {
